@@ -121,3 +121,17 @@ Proof.
   - vm_compute in E. injection E as <- <- <-. vm_compute in E2. injection E2 as _ _ <- <-.
     split; [discriminate|]. split; [discriminate|]. vm_compute. reflexivity.
 Qed.
+
+(* ---- pages: whatever an aborted transaction has already flushed or checkpointed (Model/TxCore.v), a reader of
+   the committed state reads every page that existed before exactly as before: the scheduled writes only go to
+   pages the transaction allocated itself, to fresh overwrite pages, or to the original location of pages whose
+   committed contents live in an overwrite page ---- *)
+From VF Require Import TxCore TxCoreProofs.
+Theorem C07_aborted_tx_invisible : forall (V : Type) (s : fstate V) (fresh0 : list Z),
+  WF V s fresh0 -> forall ops id,
+  let t := tx_run V s (tx_begin V fresh0) ops in
+  (forall p, In p (t_new V t) -> ~ In p (map snd (f_wal V s))) ->
+  data_id V s fresh0 id -> ~ In id (t_new V t) ->
+  f_read V {| f_disk := apply_writes V (f_disk V s) (t_sched V t); f_wal := f_wal V s |} id = f_read V s id.
+Proof. exact aborted_tx_invisible. Qed.
+Print Assumptions C07_aborted_tx_invisible.
